@@ -1,6 +1,8 @@
 """C08 -- array, list and map element rules are enforced on every container type (engine K)."""
 import ksupport
+import mir
 import native
+import travcheck as tc
 from common import src_line
 
 LEVEL = 'model_checking'
@@ -9,19 +11,26 @@ SPECS = [
     ('c08::c08_list_element', 'list element over all 17 categories', 'quick', ['c08']),
     ('c08::c08_map_key_value', 'map key x value over 16 x 17 categories', 'quick', ['c08']),
     ('c08::c08_raw_containers', 'raw List/Map: one Warning on the keyword; non-containers: nothing', 'quick', ['c08']),
-    ('c08::c08_walk_depth2_return', 'check_containers through the real type walker, symbolic nesting to depth 2, return type', 'quick', ['c08']),
-    ('c08::c08_walk_depth2_arg', 'same, argument position', 'quick', ['c08']),
-    ('c08::c08_walk_depth2_field', 'same, parcelable field', 'quick', ['c08']),
-    ('c08::c08_walk_depth2_const', 'same, constant', 'thorough', ['c08']),
-    ('c08::c08_walk_depth3_return', 'depth-3 spines', 'thorough', ['c08']),
 ]
 
 
 def check(run):
     run.functions += ['validation::check_container (%s)' % src_line('src/validation.rs', 'fn check_container('), 'check_array_element / check_list_element / check_map_key / check_map_value',
                       'validation::check_containers -> traverse::walk_types (%s)' % src_line('src/traverse.rs', 'pub fn walk_types')]
-    run.bounds += ['17 leaf categories per element position; container shapes to depth 2 (all of array/list/map(String,x)/map(x,String)), depth-3 spines in the thorough tier; unwind 4-5']
+    run.bounds += ['17 leaf categories per element position; which container nodes are visited: any depth by induction (engine T); unwind 4-8']
     run.outside += ['map key of unresolved kind (the statement is ambiguous: "must be String" vs "benefit of the doubt")', 'message wording']
     run.assumptions += ['stub: alloc::fmt::format -> String::new()']
     run.extra['explanation'] = 'Kani/CBMC over check_container for all element categories and over check_containers + walk_types for symbolic nesting; native sweep of 405 container types in 5 syntactic positions confirms.'
     ksupport.decide(run, 'C08', SPECS, {'c08': native.sweep_c08})
+    # every container at any depth is checked: engine T on walk_types + the closure check_containers hands to it
+    import c15
+    c15.check(run, which=('step_types', 'deep_types', 'outer_types'), native_bad=native.sweep_c08()[1])
+    try:
+        S = tc.Setup()
+        ok, detail = tc.closure_calls(S, 'check_containers', r'check_container$')
+        if ok:
+            run.holds('the closure check_containers hands to the walker calls check_container on exactly the node it is given', 'T', bound='MIR of check_containers::{closure#0}')
+        else:
+            run.violated('check_containers closure calls check_container on its node', 'T', 'check-containers-closure', {'detail': detail}, True)
+    except mir.Unsupported as e:
+        run.inconclusive('check_containers closure', 'T', str(e))
